@@ -71,6 +71,7 @@ func (m *GRPCClientMuxer) Enabled() bool {
 }
 
 func (m *GRPCClientMuxer) Listener(id uint32, doneCh <-chan struct{}) (net.Listener, error) {
+	verifhook.Point("mux.listener.enter", m, int64(id), 0)
 	ln := newBlockedClientListener(m.session, doneCh)
 
 	m.acceptMutex.Lock()
